@@ -148,13 +148,32 @@ func installHarnessAPI(c *Ctx, hpkgs []string) {
 			c.addPC(t)
 			return nil
 		}
+		in[p+".verifAll"] = func(c *Ctx, a []Value) Value {
+			s := a[0].(Slice)
+			r := Bool(true)
+			for k := 0; k < s.len; k++ {
+				r = And(r, s.back.e[s.off+k].(*Term))
+			}
+			return r
+		}
+		in[p+".verifAny"] = func(c *Ctx, a []Value) Value {
+			s := a[0].(Slice)
+			r := Bool(false)
+			for k := 0; k < s.len; k++ {
+				r = Or(r, s.back.e[s.off+k].(*Term))
+			}
+			return r
+		}
+		in[p+".verifIte"] = func(c *Ctx, a []Value) Value {
+			return Ite(a[0].(*Term), a[1].(*Term), a[2].(*Term))
+		}
 		in[p+".verifReach"] = func(c *Ctx, a []Value) Value { c.reach[cstr(a[0])]++; return nil }
 		in[p+".verifKnownClass"] = func(c *Ctx, a []Value) Value {
 			c.kf = append(c.kf, kfClass{id: cstr(a[0]), cond: a[1].(*Term)})
 			return nil
 		}
 		in[p+".verifPanic"] = func(c *Ctx, a []Value) Value {
-			panic(&goPanic{what: "verifPanic:" + cstr(a[0]), pos: c.curPos})
+			panic(&goPanic{what: "verifPanic:" + cstr(a[0]), pos: c.cp()})
 		}
 		in[p+".verifTermBudget"] = func(c *Ctx, a []Value) Value {
 			c.termBudget = int(a[0].(*Term).cval)
